@@ -27,6 +27,11 @@ type Opts struct {
 	// RecoverLA: the action of a production "@error TOKEN" hands that token back to the parser with
 	// recoverLookahead when the token's input index is even (the documented use of that method).
 	RecoverLA bool
+	// TokMask: bit i set = rule i (if eligible, see TokRules) has result type Token: its actions
+	// build and log their node as usual but RETURN the last Token they received (the way a rule
+	// "name = path '.' ID" hands the identifier on). Parents and _onBounds see that token; the
+	// span reported by _onBounds must still be the span of the reduction.
+	TokMask uint64
 	// PtrDiscard: Token (a value type, the element type of TOKEN*! lists) declares Discard with a
 	// pointer receiver; x*! must find it all the same (elements are addressable).
 	PtrDiscard bool
@@ -52,6 +57,49 @@ func NilRules(g *G, mask uint64) map[string]bool {
 	}
 	for i, r := range g.Rules {
 		if i < 64 && mask&(1<<uint(i)) != 0 && !sugared[r.Name] {
+			out[r.Name] = true
+		}
+	}
+	return out
+}
+
+// TokRules lists the rules whose actions return a Token under mask: not the start rule, never the
+// element of a sugar term, not a nil rule, and every production has a plain token term and no
+// optional token (so that "the last parameter of type Token" is the same parameter for all
+// productions sharing a method).
+func TokRules(g *G, mask uint64, nilRules map[string]bool) map[string]bool {
+	out := map[string]bool{}
+	if mask == 0 {
+		return out
+	}
+	sugared := map[string]bool{}
+	for _, r := range g.Rules {
+		for _, p := range r.Prods {
+			for _, t := range p.Terms {
+				if t.Kind != KSym && t.Kind != KErr && !t.IsTok {
+					sugared[t.Name] = true
+				}
+			}
+		}
+	}
+	for i, r := range g.Rules {
+		if i == 0 || i >= 64 || mask&(1<<uint(i)) == 0 || sugared[r.Name] || nilRules[r.Name] {
+			continue
+		}
+		ok := len(r.Prods) > 0
+		for _, p := range r.Prods {
+			plain := false
+			for _, t := range p.Terms {
+				if t.IsTok && t.Name != "ERROR" && t.Kind == KSym {
+					plain = true
+				}
+				if t.IsTok && t.Kind == KOpt {
+					ok = false
+				}
+			}
+			ok = ok && plain
+		}
+		if ok {
 			out[r.Name] = true
 		}
 	}
@@ -350,9 +398,13 @@ func (p *prs) _onBounds(r any, begin, end Token) {
 	}
 	nRules := len(g.Rules)
 	nilRules := NilRules(g, o.NilMask)
+	tokRules := TokRules(g, o.TokMask, nilRules)
 	ptype := func(t Term) string {
 		if t.Kind == KSym && !t.IsTok && nilRules[t.Name] {
 			return "nilI"
+		}
+		if t.Kind == KSym && !t.IsTok && tokRules[t.Name] {
+			return "Token"
 		}
 		return ParamType(t, o)
 	}
@@ -379,6 +431,15 @@ func (p *prs) _onBounds(r any, begin, end Token) {
 			if nilRules[r.Name] {
 				rtype = "nilI"
 			}
+			lastTok := -1
+			if tokRules[r.Name] {
+				rtype = "Token"
+				for i, t := range p.Terms {
+					if ptype(t) == "Token" {
+						lastTok = i
+					}
+				}
+			}
 			fmt.Fprintf(&b, "\nfunc (p *prs) on_%s__s%d(%s) %s {\n", r.Name, len(seen), strings.Join(params, ", "), rtype)
 			b.WriteString("\tp.step()\n")
 			for i, t := range p.Terms {
@@ -400,6 +461,8 @@ func (p *prs) _onBounds(r any, begin, end Token) {
 			}
 			if nilRules[r.Name] {
 				b.WriteString("\t_ = n\n\treturn nil\n}\n")
+			} else if lastTok >= 0 {
+				fmt.Fprintf(&b, "\t_ = n\n\treturn a%d\n}\n", lastTok)
 			} else {
 				b.WriteString("\treturn n\n}\n")
 			}
@@ -607,6 +670,11 @@ func Expected(p *Plain, tree *Node, w []int) *Expect { return ExpectedNil(p, tre
 // ExpectedNil is Expected for an action file rendered with a NilMask: nilRules are the names
 // NilRules returned for it.
 func ExpectedNil(p *Plain, tree *Node, w []int, nilRules map[string]bool) *Expect {
+	return ExpectedNilTok(p, tree, w, nilRules, nil)
+}
+
+// ExpectedNilTok additionally takes the rules whose actions return their last Token (TokRules).
+func ExpectedNilTok(p *Plain, tree *Node, w []int, nilRules, tokRules map[string]bool) *Expect {
 	ex := &Expect{}
 	var top *val
 	seq := 0
@@ -660,6 +728,14 @@ func ExpectedNil(p *Plain, tree *Node, w []int, nilRules map[string]bool) *Expec
 			if nilRules[un.rule] {
 				// the action returns a nil interface: parents and _onBounds see <nil>
 				v = &val{kind: 'N'}
+			}
+			if tokRules[un.rule] {
+				// the action hands on the last Token it received
+				for _, k := range kids {
+					if k.kind == 't' {
+						v = k
+					}
+				}
 			}
 			ex.Nodes++
 			if len(kids) > ex.MaxAr {
